@@ -24,6 +24,8 @@ type Ctx struct {
 	Self     string         // path of this binary (for worker re-exec)
 	CueBin   string         // path of the cue binary built from the tree
 	Workers  int
+	// ASLimitKB, if > 0, is the address-space limit (ulimit -v) of batch workers.
+	ASLimitKB int
 }
 
 func (c *Ctx) RNG(stream string) *rand.Rand { return mon.RNG(c.Seed, c.Prop, stream) }
